@@ -186,3 +186,160 @@ Theorem C14_tables_are_the_source : forall t : mtype,
   src_len_fields t = len_fields t /\ src_pack_fields t = pack_fields t /\ src_unpack_fields t = unpack_fields t.
 Proof. exact tables_match_source. Qed.
 Print Assumptions C14_tables_are_the_source.
+
+(* ======================================================================================================== *)
+(*  "... in libmunge, whatever type its header and body claim ... ends in a well-formed message or an error" *)
+(*  (model: MsgClientModel = m_msg_client_xfer + munge_decode / munge_encode on top of MsgModel; the peer is  *)
+(*  any list of byte strings, one per connection the client opens)                                           *)
+(* ======================================================================================================== *)
+From MV Require Import MsgClientModel MsgClientProofs MsgClientSource.
+From MV.gen Require Import GenMsgClient GenMsgClientCopy.
+
+(* ---- unpack, then pack what it left: the bytes consumed (the converse of C14_pack_unpack) ------------------- *)
+(* every type, every byte string, every state of the receiving object, every lim and allocator *)
+Theorem C14_unpack_then_pack : forall lim hp t body m m' p',
+  fst (msg_unpack_g lim hp (code_of t) body (Z.of_nat (length body)) m) = UOk m' p' ->
+  0 <= p' <= Z.of_nat (length body)
+  /\ pack_list (pack_fields t) m' 0 (Z.of_nat (length body)) = POk (firstn (Z.to_nat p') body).
+Proof. exact unpack_then_pack. Qed.
+Print Assumptions C14_unpack_then_pack.
+
+(* ---- m_msg_recv with an expected type, into a fresh object: success means that the bytes on the connection
+        are the magic, the version, THE EXPECTED TYPE, a retry count and the body length, followed by a body that
+        begins with the packing of the members received; every other member is that of a fresh object; every
+        heap member is NULL with length 0 or a block of exactly its length (carries_msg, unfolded here) -------- *)
+Theorem C14_client_recv_carries : forall lim hp stream t maxlen m, t <> T_HDR ->
+  fst (recv_g lim hp stream (code_of t) maxlen msg0) = ROk m ->
+  exists retry body rest p,
+    stream = hdr_bytes (code_of t) retry (Z.of_nat (length body)) ++ body ++ rest
+    /\ (retry < 256)%N /\ 0 < Z.of_nat (length body) < two31 /\ 0 <= p <= Z.of_nat (length body)
+    /\ pack_list (pack_fields t) m 0 (Z.of_nat (length body)) = POk (firstn (Z.to_nat p) body)
+    /\ nv m Ntype = code_of t /\ nv m Nretry = retry /\ nv m Npkt_len = 0%N /\ bv m Bpkt = None
+    /\ err_local m = false
+    /\ (forall f, carries_n (pack_fields t) f = false -> carries_n (pack_fields T_HDR) f = false -> nv m f = nv msg0 f)
+    /\ (forall b, carries_b (pack_fields t) b = false -> b <> Bpkt -> bv m b = bv msg0 b)
+    /\ (forall b lf, In (Var b lf Heap) (pack_fields t) ->
+          (nv m lf = 0%N /\ bv m b = None)
+          \/ (exists l, bv m b = Some l /\ Z.of_nat (length l) = Z.of_N (nv m lf) /\ (0 < nv m lf)%N)).
+Proof. exact recv_ok_carries. Qed.
+Print Assumptions C14_client_recv_carries.
+
+(* ---- munge_decode: for every credential string and EVERY list of byte strings the peer may answer with (one per
+        attempt; a missing one is an immediate EOF), every allocator, every sanity check acc in _decode_rsp, and every
+        choice ex of the expected type that is DEC_RSP for a decode request: the call ends in
+          - an error (return value <> EMUNGE_SUCCESS) and every output keeps the value _decode_init gave it, or
+          - exactly the members (dec_out) of a well-formed DEC_RSP carried by one of the first xfer_attempts answers.
+        (send ... <> SFault: the request object is one m_msg_send can pack - C14_client_dec_req_sendable) --------- *)
+Theorem C14_client_decode_wellformed : forall lim hp ex acc cred peer,
+  (lim <= sizeof_addr)%N ->
+  (forall x, ex mt_dec_req = Some x -> x = mt_dec_rsp) ->
+  (forall r, send hp mt_dec_req (setn (dec_req cred) Nretry r) xfer_send_maxlen <> SFault) ->
+  exists r, fst (client_decode_g lim hp ex acc cred peer) = Some r
+    /\ ((d_err r <> 0%N /\ exists s, r = dec_fail (d_err r) s)
+        \/ (exists k m, (k < N.to_nat xfer_attempts)%nat /\ carries_msg T_DEC_RSP (nth k peer []) m /\ r = dec_out m)).
+Proof. exact client_decode_wf. Qed.
+Print Assumptions C14_client_decode_wellformed.
+
+Theorem C14_client_dec_req_sendable : forall hp cred r maxlen,
+  send hp mt_dec_req (setn (dec_req cred) Nretry r) maxlen <> SFault.
+Proof. exact dec_req_no_fault. Qed.
+Print Assumptions C14_client_dec_req_sendable.
+
+(* ---- munge_encode: the same, for any request object m_msg_send can pack; success additionally needs data_len > 0 *)
+Theorem C14_client_encode_wellformed : forall lim hp ex acc mreq peer,
+  (lim <= sizeof_addr)%N ->
+  (forall x, ex mt_enc_req = Some x -> x = mt_enc_rsp) ->
+  (forall r, send hp mt_enc_req (setn mreq Nretry r) xfer_send_maxlen <> SFault) ->
+  exists r, fst (client_encode_g lim hp ex acc mreq peer) = Some r
+    /\ ((e_err r <> 0%N /\ exists s, r = enc_fail (e_err r) s)
+        \/ (exists k m, (k < N.to_nat xfer_attempts)%nat /\ carries_msg T_ENC_RSP (nth k peer []) m
+                        /\ nv m Ndata_len <> 0%N /\ r = enc_out m)).
+Proof. exact client_encode_wf. Qed.
+Print Assumptions C14_client_encode_wellformed.
+
+(* ---- refuted when the response is received without the expected type (m_msg_recv (mrsp, MUNGE_MSG_UNDEF, 0)),
+        even with the sanity check of _decode_rsp in place: a header of type HDR whose body is a packed header
+        naming DEC_RSP gives EMUNGE_SUCCESS, uid 0, gid 0, an all-zero context - and no answer of the peer carries a
+        DEC_RSP ------------------------------------------------------------------------------------------------ *)
+Theorem C14_client_unchecked_type_refuted :
+  exists cred peer r,
+    fst (client_decode_g sizeof_addr (fun _ => true) (fun _ => Some mt_undef) (fun t => (t =? mt_dec_rsp)%N)
+           cred peer) = Some r
+    /\ d_err r = 0%N /\ d_uid r = 0%N /\ d_gid r = 0%N /\ d_len r = 0 /\ d_ctx r <> dctx_init
+    /\ forall s m, In s peer -> ~ carries_msg T_DEC_RSP s m.
+Proof. exact client_unchecked_type_refuted. Qed.
+Print Assumptions C14_client_unchecked_type_refuted.
+
+(* ---- the repository: measured by running m_msg_client.c / decode.c / encode.c of the current source ----------- *)
+(* the expected type handed to m_msg_recv is the response type of the request (the measurement saw one type per
+   request code, the same on every attempt); the sanity
+   checks of _decode_rsp / _encode_rsp let the response type through; the context's addr is as wide as the message's.
+   (The two maxlen arguments, the number of attempts and what else the sanity checks accept do not matter for the
+   theorems above - they hold for every value - and are not pinned here.) *)
+Theorem C14_repo_client_parameters :
+  xfer_exptype mt_enc_req = Some mt_enc_rsp /\ xfer_exptype mt_dec_req = Some mt_dec_rsp
+  /\ xfer_measure_consistent = true /\ (1 <= xfer_attempts)%N
+  /\ dec_rsp_accepts mt_dec_rsp = true /\ enc_rsp_accepts mt_enc_rsp = true
+  /\ sizeof_ctx_addr = sizeof_addr.
+Proof.
+  repeat split; try reflexivity; try discriminate.
+Qed.
+Print Assumptions C14_repo_client_parameters.
+
+Theorem C14_repo_client_decode : forall hp cred peer,
+  exists r, fst (client_decode hp cred peer) = Some r
+    /\ ((d_err r <> 0%N /\ exists s, r = dec_fail (d_err r) s)
+        \/ (exists k m, (k < N.to_nat xfer_attempts)%nat /\ carries_msg T_DEC_RSP (nth k peer []) m /\ r = dec_out m)).
+Proof.
+  intros. unfold client_decode. apply client_decode_wf.
+  - rewrite (proj1 (proj2 C14_repo_guard)). apply N.le_refl.
+  - intros x H. rewrite (proj1 (proj2 C14_repo_client_parameters)) in H. inversion H. reflexivity.
+  - intros. apply dec_req_no_fault.
+Qed.
+Print Assumptions C14_repo_client_decode.
+
+Theorem C14_repo_client_encode : forall hp mreq peer,
+  (forall r, send hp mt_enc_req (setn mreq Nretry r) xfer_send_maxlen <> SFault) ->
+  exists r, fst (client_encode hp mreq peer) = Some r
+    /\ ((e_err r <> 0%N /\ exists s, r = enc_fail (e_err r) s)
+        \/ (exists k m, (k < N.to_nat xfer_attempts)%nat /\ carries_msg T_ENC_RSP (nth k peer []) m
+                        /\ nv m Ndata_len <> 0%N /\ r = enc_out m)).
+Proof.
+  intros. unfold client_encode. apply client_encode_wf.
+  - rewrite (proj1 (proj2 C14_repo_guard)). apply N.le_refl.
+  - intros x E. rewrite (proj1 C14_repo_client_parameters) in E. inversion E. reflexivity.
+  - assumption.
+Qed.
+Print Assumptions C14_repo_client_encode.
+
+(* ---- translator tie: the member every output of munge_decode / munge_encode is copied from, measured on the current
+        source with marker values, is the member dec_out / enc_out read - and they read nothing else ------------- *)
+Theorem C14_client_copies_are_the_source :
+  (forall o, measured_dec_src o = dec_src o) /\ (forall o, measured_enc_src o = enc_src o)
+  /\ (forall m m', err_local m = err_local m' -> (forall o, same_at m m' (dec_src o)) -> dec_out m = dec_out m')
+  /\ (forall m m', err_local m = err_local m' -> (forall o, same_at m m' (enc_src o)) -> enc_out m = enc_out m').
+Proof.
+  split; [exact (proj1 copies_match_source)|]. split; [exact (proj2 copies_match_source)|].
+  split; [exact dec_out_reads_sources|exact enc_out_reads_sources].
+Qed.
+Print Assumptions C14_client_copies_are_the_source.
+
+(* ---- translator tie: the expected type, the two maxlen arguments and the sanity-check types a translator reads off
+        the current text of m_msg_client_xfer / _decode_rsp / _encode_rsp are the ones measured by running them -- *)
+From MV.gen Require Import GenMsgClientSrc.
+Theorem C14_client_text_is_measured :
+  (forall c, (c < 256)%N -> src_xfer_exptype c = xfer_exptype c)
+  /\ src_xfer_recv_maxlen = xfer_recv_maxlen /\ src_xfer_send_maxlen = xfer_send_maxlen
+  /\ (forall t, (t < 256)%N -> sanity_accepts src_dec_sanity t = dec_rsp_accepts t)
+  /\ (forall t, (t < 256)%N -> sanity_accepts src_enc_sanity t = enc_rsp_accepts t).
+Proof. exact text_matches_measured. Qed.
+Print Assumptions C14_client_text_is_measured.
+
+(* non-vacuity: the repository's client, first answer = the nested header (rejected: wrong type), second answer = a
+   well-formed DEC_RSP; the caller gets the members of the second, and two requests with retry 0 and 1 were sent *)
+Example C14_client_example :
+  exists r sent, client_decode (fun _ => true) ["M"; "U"]%byte [nested_attack; example_dec_rsp] = (Some r, sent)
+    /\ d_err r = 0%N /\ d_uid r = 42%N /\ d_gid r = 43%N /\ d_len r = 5 /\ d_buf r = Some ["h"; "e"; "l"; "l"; "o"]%byte
+    /\ x_ttl (d_ctx r) = 300 /\ x_addr (d_ctx r) = [x7f; x00; x00; x01]%byte /\ d_estr r = ENull
+    /\ length sent = 2%nat.
+Proof. eexists. eexists. split; [vm_compute; reflexivity|]. repeat split. Qed.
